@@ -44,9 +44,13 @@ Record cfg := { cwd : key; umask : N }.
 Definition is_dir_node (o : option node) : bool :=
   match o with Some (NDir _) => true | _ => false end.
 
+(** What [mkdir(2)] keeps of the requested mode: the permission bits and the
+    sticky bit (01777); set-user-ID and set-group-ID are not honoured. *)
+Definition perm_dir_mask : N := 1023.
+
 (** [os.MkdirAll]: walk down from the root; an existing directory is kept,
     a file on the way is ENOTDIR, a missing element is created with
-    [perm &^ umask]. *)
+    [perm & 01777 &^ umask]. *)
 Fixpoint mkdir_walk (um perm : N) (f : fs) (pre : key) (rest : list str) : bool * fs :=
   match rest with
   | [] => (true, f)
@@ -55,7 +59,7 @@ Fixpoint mkdir_walk (um perm : N) (f : fs) (pre : key) (rest : list str) : bool 
       match lookup f k with
       | Some (NDir _) => mkdir_walk um perm f k rest'
       | Some (NFile _ _) => (false, f)
-      | None => mkdir_walk um perm (set f k (NDir (N.ldiff perm um))) k rest'
+      | None => mkdir_walk um perm (set f k (NDir (N.ldiff (N.land perm perm_dir_mask) um))) k rest'
       end
   end.
 
@@ -188,5 +192,24 @@ Fixpoint untar (c : cfg) (f : fs) (dir : str) (es : list entry) : xres * fs :=
       match untar_entry c f dir e with
       | (Some r, f1) => (r, f1)
       | (None, f1) => untar c f1 dir rest
+      end
+  end.
+
+(** [dock.writeFirstFileAs(r, file)]: the first regular entry's content goes
+    to [file] — a path chosen by the caller, no entry name is used; other
+    entries are skipped; no regular entry is "not found". *)
+Inductive ffres := FOk | FNotFound | FOsErr.
+
+Fixpoint first_file_as (c : cfg) (f : fs) (file : str) (es : list entry) : ffres * fs :=
+  match es with
+  | [] => (FNotFound, f)
+  | e :: rest =>
+      match e_kind e with
+      | KFile =>
+          match open_trunc c f file (N.land (e_perm e) perm_mask) with
+          | None => (FOsErr, f)
+          | Some (k, pm, f2) => (FOk, set f2 k (NFile pm (e_data e)))
+          end
+      | _ => first_file_as c f file rest
       end
   end.
